@@ -102,6 +102,11 @@ def universe():
     add('stiff-par', 'inner(grad(u,parametric=True),grad(v,parametric=True))*dx', 'physical')
     add('biharm', 'inner(hess(u),hess(v))*dx', 'derivative')
     add('field-grad', 'inner(grad(f),grad(v))*u*dx', 'derivative', args=Fp)
+    add('field-grad-par', 'inner(grad(f,parametric=True),grad(v))*u*dx', 'physical', args=Fp)
+    add('field-dx', 'Dx(f,0)*u*v*dx', 'derivative', args=Fp)
+    add('field-dx-par', 'Dx(f,0,parametric=True)*u*v*dx', 'physical', args=Fp)
+    add('field-hess', 'tr(hess(f))*u*v*dx', 'derivative', args=Fp)
+    add('field-hess-par', 'tr(hess(f,parametric=True))*u*v*dx', 'physical', args=Fp)
     add('surf', 'u*v*ds', 'measure')
     add('bd-ds', 'u*v*ds', 'boundary flag', boundary=True)
     add('gw', 'u*v*gw', 'boundary flag')
